@@ -1508,13 +1508,23 @@ flip_reinforce = distribution(
     flip.logpdf,
 )
 
+def _geometric_probs_sample(probs):
+    return geometric.sample(probs=probs)
+
+
+def _geometric_probs_logpdf(v, probs):
+    return geometric.logpdf(v, probs=probs)
+
+
+# The site's parameter is the success probability throughout (the first
+# positional parameter of `geometric` itself is `logits`).
 geometric_reinforce = distribution(
     reinforce(
-        geometric.sample,
-        geometric.logpdf,
+        _geometric_probs_sample,
+        _geometric_probs_logpdf,
         _geometric_keyful_sample,
     ),
-    geometric.logpdf,
+    _geometric_probs_logpdf,
 )
 
 normal_reinforce = distribution(
